@@ -19,6 +19,7 @@ import Driver.OpsTyper
 import Driver.OpsEqual
 import Driver.OpsCodec
 import Driver.OpsText
+import Driver.OpsDeep
 open Lean Driver
 
 def dispatch (op : String) (j : Json) : R Json :=
@@ -44,6 +45,7 @@ def dispatch (op : String) (j : Json) : R Json :=
   | "jsonRoundTrip" => opJsonRoundTrip j
   | "gobRoundTrip" => opGobRoundTrip j
   | "docDecode" => opDocDecode j
+  | "deepRoundTrip" => opDeepRoundTrip j
   | "textWrite" => opTextWrite j
   | "textRead" => opTextRead j
   | "unmarshalText" => opUnmarshalText j
